@@ -107,6 +107,7 @@ class GrammarAI:
         self.tables = {}
         self.site_facts = defaultdict(list)   # rule -> list of discharged facts
         self.live_cache = {}
+        self.outer_consumed = []
         self.cur_site = None
         self.callargs = defaultdict(set)
         self.runs_by_fn = defaultdict(int)
@@ -217,9 +218,10 @@ class GrammarAI:
             self.memo[callee_key] = set()
             if len(self.onstack) < 150:
                 # analyse the callee right away (depth first) so that the caller sees its summary
-                saved = (self.cur_alarms, self.cur_facts, self.cur_edges, self.depth)
+                saved = (self.cur_alarms, self.cur_facts, self.cur_edges, self.depth, self.outer_consumed, self.cur_site)
+                self.outer_consumed = []
                 outs = self.analyze(callee_key)
-                self.cur_alarms, self.cur_facts, self.cur_edges, self.depth = saved
+                self.cur_alarms, self.cur_facts, self.cur_edges, self.depth, self.outer_consumed, self.cur_site = saved
                 if not outs <= self.memo[callee_key]:
                     self.memo[callee_key] |= outs
                     for d in self.deps[callee_key]:
@@ -1210,7 +1212,9 @@ class GrammarAI:
         for i, a in enumerate(args[:cb.nargs]):
             loc[i + 1] = a
         s0 = St(st.win, loc, ms=st.ms, consumed=False, err=False)
+        self.outer_consumed.append(st.consumed or (self.outer_consumed[-1] if self.outer_consumed else False))
         finals = self.run_body(cb, s0, key)
+        self.outer_consumed.pop()
         self.depth -= 1
         if leaf:
             self.icache[ck] = (finals, self.cur_alarms, self.cur_facts)
@@ -1296,8 +1300,9 @@ class GrammarAI:
             if self.ctx_count[cal] > self.ctx_cap:
                 self.widened.add(cal)
         # record call edge progress
-        e = (body.npath, cal)
-        self.cur_edges[e] = self.cur_edges.get(e, True) and st.consumed
+        e = (key, ckey)
+        eff = st.consumed or (self.outer_consumed[-1] if self.outer_consumed else False)
+        self.cur_edges[e] = self.cur_edges.get(e, True) and eff
         outs = self.summary(ckey, key)
         base_ms = st.ms[:len(st.ms) - len(passed)] if passed else st.ms
         outs = list(outs)
